@@ -199,6 +199,11 @@ class C15(core.Prop):
                     if len(la) != len(le):
                         got_pairs = None
                     want_pairs = self.unexcused_pairs(case)
+                    if want_pairs is not None and got_pairs is None:
+                        # both sides keep the same number of lines after removal: the two reconstructions then have the
+                        # same number of lines (removed lines are collapsed to the same marker on both sides)
+                        fail('post-processed-differ', 'post-processed files have %d and %d lines although both sides keep '
+                             'the same number of lines after removal' % (len(la), len(le)), 'post-processed-differ:line-count')
                     if want_pairs is not None and got_pairs is not None and got_pairs != want_pairs:
                         fail('post-processed-differ', 'post-processed files differ on %r, unexcused differences are %r'
                              % (got_pairs[:4], want_pairs[:4]))
